@@ -403,3 +403,112 @@ Definition build_states (mro : list (dict member)) : result built builderr :=
    StateMachine and object left out) is [mro] *)
 Definition instantiate (dicts : list (dict member)) (mro : list nat) : result built builderr :=
   build_states (map (fun i => nth i dicts []) mro).
+
+(* ------------------------------------------------------------------ *)
+(* Instantiation HISTORIES and binding to NetworkTables                 *)
+
+(* Instantiating a class is not free of side effects: the checks part of
+   _build_states ends with
+       cls.state_names = tunable(nt_names, subtable="state")
+       cls.state_descriptions = tunable(nt_desc, subtable="state")
+   on cls = type(self): two non-state attributes are set on the instantiated
+   class, i.e. its __dict__ changes (a key that exists keeps its position).
+   Both statements come after every raise of the function: an attempt that
+   raises leaves the class untouched.  Nothing else of the class -- and no
+   module-level table -- is written. *)
+Definition publish_class_attrs (d : dict member) : dict member :=
+  dict_set "state_descriptions" MOther (dict_set "state_names" MOther d).
+
+Fixpoint update_nth {A} (i : nat) (f : A -> A) (l : list A) {struct l} : list A :=
+  match l, i with
+  | [], _ => []
+  | x :: r, 0 => f x :: r
+  | x :: r, S j => x :: update_nth j f r
+  end.
+
+(* tunable(default, *, writeDefault=True, subtable=None): a string-array
+   tunable is its default and the writeDefault flag *)
+Record tunable := { t_default : list string; t_write_default : bool }.
+
+Definition mk_tunable (default : list string) (writeDefault : option bool) : tunable :=
+  {| t_default := default;
+     t_write_default := match writeDefault with Some b => b | None => true end |}.
+
+(* the two tunables _build_states creates: no writeDefault argument *)
+Definition names_tunable (r : built) : tunable := mk_tunable (r_names r) None.
+Definition descs_tunable (r : built) : tunable := mk_tunable (r_descs r) None.
+
+(* NetworkTables as far as the two lists are concerned: topic path -> the
+   value the topic holds (absent: the topic has no value).  Every client of
+   the instance -- an entry of a bound machine, a plain publisher, a plain
+   subscriber -- sees this one store. *)
+Definition ntstore := dict (list string).
+
+(* setup_tunables(component, cname, "components"): the key of a tunable with
+   subtable "state" *)
+Definition topic (cname leaf : string) : string :=
+  "/components/" ++ cname ++ "/state/" ++ leaf.
+
+(* .. per tunable:  ntvalue = topic.getEntry(default);
+                    ntvalue.set(default) if writeDefault else ntvalue.setDefault(default) *)
+Definition bind_tunable (nt : ntstore) (key : string) (t : tunable) : ntstore :=
+  if t_write_default t then dict_set key (t_default t) nt
+  else match dict_get key nt with
+       | Some _ => nt
+       | None => dict_set key (t_default t) nt
+       end.
+
+(* instance.<tunable>  is  instance._tunables[prop].get(): the value of the
+   topic, the default if it has none *)
+Definition read_tunable (nt : ntstore) (key : string) (t : tunable) : list string :=
+  match dict_get key nt with Some v => v | None => t_default t end.
+
+(* setup_tunables walks dir(cls), i.e. sorted names: state_descriptions, then
+   state_names *)
+Definition bind_machine (nt : ntstore) (cname : string) (r : built) : ntstore :=
+  bind_tunable (bind_tunable nt (topic cname "state_descriptions") (descs_tunable r))
+               (topic cname "state_names") (names_tunable r).
+
+(* What happens to a module after its classes exist:
+     EInst mro cname   o = C(); setup_tunables(o, cname, "components"), C the
+                       class whose MRO (indices into the class table) is mro;
+                       the instance and its entries stay alive;
+     EPublish key v    some other client of NetworkTables sets the topic key *)
+Inductive event :=
+| EInst (mro : list nat) (cname : string)
+| EPublish (key : string) (v : list string).
+
+(* the class table (the __dict__ of every class, as it is NOW) and the topics *)
+Record world := { w_dicts : list (dict member); w_nt : ntstore }.
+
+Inductive outcome :=
+| ORaised (e : builderr)                      (* C() raised; nothing was bound       *)
+| OBound (r : built) (names descs : list string)
+                                              (* the instance; o.state_names and
+                                                 o.state_descriptions read after binding *)
+| OPublished.
+
+Definition step (w : world) (ev : event) : world * outcome :=
+  match ev with
+  | EPublish key v =>
+      ({| w_dicts := w_dicts w; w_nt := dict_set key v (w_nt w) |}, OPublished)
+  | EInst mro cname =>
+      match instantiate (w_dicts w) mro with
+      | Err e => (w, ORaised e)
+      | Ok r =>
+          let dicts' := match mro with
+                        | [] => w_dicts w
+                        | c :: _ => update_nth c publish_class_attrs (w_dicts w)
+                        end in
+          let nt' := bind_machine (w_nt w) cname r in
+          ({| w_dicts := dicts'; w_nt := nt' |},
+           OBound r (read_tunable nt' (topic cname "state_names") (names_tunable r))
+                    (read_tunable nt' (topic cname "state_descriptions") (descs_tunable r)))
+      end
+  end.
+
+Fixpoint run_history (w : world) (h : list event) : list outcome :=
+  match h with
+  | [] => []
+  | ev :: r => let (w', o) := step w ev in o :: run_history w' r
+  end.
